@@ -422,6 +422,7 @@ fn mk_adapter(work: &std::path::Path, rng: &mut Rng) -> Arc<glue::GlueAdapter> {
 		arch_data: Mutex::new(None),
 		segs: Mutex::new(None),
 		fail: Mutex::new(None),
+		tmp_exists: std::sync::atomic::AtomicBool::new(false),
 	})
 }
 
@@ -1243,5 +1244,157 @@ pub fn peers_level(cx: &mut Ctx, work: &std::path::Path) {
 			cx.out.line("codec deadconn", &format!("closed:{};is_connected:{};send:{}", if closed { 1 } else { 0 }, if p.is_connected() { 1 } else { 0 }, send_after));
 			p.stop();
 		}
+	}
+}
+
+
+// ---------------------------------------------------------------------------------------------------
+// increment 4: the io point inside the handler - the temporary file of an ACCEPTED archive cannot be created
+// (`OpenOptions::create_new(true).open(path)?` -> io::Error -> Error::Connection -> the reader loop ends)
+
+pub fn io_points(cx: &mut Ctx, work: &std::path::Path) {
+	let ver = 1000u32;
+	let dir = work.join("io-points");
+	let _ = std::fs::create_dir_all(&dir);
+	let ad = mk_adapter(&dir, &mut cx.rng);
+	let (peer, mut sock) = match mk_peer_port(ver, ad.clone(), cx.rng.next(), 4400) {
+		Some(x) => x,
+		None => {
+			cx.fails += 1;
+			cx.out.raw("#ORACLE-FAIL C19 io points: the Peer could not be set up");
+			return;
+		}
+	};
+	cx.out.line(&format!("codec glue new accept {} 0 7f000001:4400 {} {}", ver, ad.td, ad.height), &format!("ok {}", peer.info.version.value()));
+	ad.ready.store(true, Ordering::SeqCst);
+	cx.out.line("codec glue ctl ready 1", "ok");
+	let (rh, rhash) = (cx.rng.below(1 << 30), hash32(&mut cx.rng));
+	let r = peer.send_txhashset_request(rh, rhash);
+	let req = TxHashSetRequest { hash: rhash, height: rh };
+	let frame = read_one(&mut sock, 30_000);
+	let bodies: Vec<Vec<u8>> = VERSIONS.iter().map(|v| sv(&req, *v)).collect();
+	cx.out.line(&format!("codec glue send txhashsetreq {}", hex_list(&bodies)), &format!("{}|{}", if r.is_ok() { "ok" } else { "err" }, frame.map(|f| hex(&f)).unwrap_or_else(|| "-".into())));
+	ad.tmp_exists.store(true, Ordering::SeqCst);
+	let att = cx.rng.bytes(5_000);
+	let arch = TxHashSetArchive { hash: hash32(&mut cx.rng), height: cx.rng.below(1 << 30), bytes: att.len() as u64 };
+	let before = ad.log.lock().unwrap().len();
+	let mut f = frame_bytes(Type::TxHashSetArchive, &arch, ver);
+	f.extend_from_slice(&att);
+	f.extend_from_slice(&frame_bytes(Type::Ping, &Ping { total_difficulty: Difficulty::from_num(1), height: 2 }, ver));
+	let _ = sock.write_all(&f);
+	// the node must hang up: nothing of the attachment is read as frames, the Ping behind is not answered
+	let _ = sock.set_read_timeout(Some(Duration::from_secs(60)));
+	let mut b = [0u8; 64];
+	let (mut closed, mut answered) = (false, 0usize);
+	loop {
+		match sock.read(&mut b) {
+			Ok(0) | Err(_) => {
+				closed = true;
+				break;
+			}
+			Ok(n) => answered += n,
+		}
+		if answered > 1 << 16 {
+			break;
+		}
+	}
+	let log: Vec<String> = ad.log.lock().unwrap()[before..].to_vec();
+	if !closed || answered > 0 {
+		cx.fails += 1;
+		cx.out.raw(&format!("#ORACLE-FAIL C19 io error inside the handler (temporary file of an accepted archive exists): closed {} , {} bytes answered", closed, answered));
+	}
+	cx.stat("glue: io point - the temporary file of an accepted archive cannot be created");
+	cx.out.line(&format!("codec glue recvio archive {} {} {}", hex(arch.hash.as_bytes()), att.len(), checksum(&att)), &format!("[{}]|-|closed:{}", log.join(";"), if closed { 1 } else { 0 }));
+	peer.stop();
+}
+
+// ---------------------------------------------------------------------------------------------------
+// increment 4: `Server::check_undesirable` through a REAL `Server::listen` accept loop - the inbound limit
+// (peer_max_inbound_count + peer_listener_buffer_count): connection number limit+1 is shut before any handshake
+
+pub fn server_accept(cx: &mut Ctx, work: &std::path::Path) {
+	use grin_p2p::Server;
+	let g = Hash::from_vec(&[7u8; 32]);
+	let plans: Vec<(u32, u32, usize)> = if cx.thorough { vec![(2, 1, 5), (0, 0, 2), (1, 0, 3), (0, 2, 4), (3, 0, 5)] } else { vec![(2, 1, 5), (0, 0, 2), (0, 1, 3)] };
+	for (pi, (max_in, buffer, n)) in plans.iter().enumerate() {
+		let dir = work.join(format!("server-{}", pi));
+		let _ = std::fs::create_dir_all(&dir);
+		let ad = mk_adapter(&dir, &mut cx.rng);
+		// a free port
+		let port = match TcpListener::bind("127.0.0.1:0").and_then(|l| l.local_addr()) {
+			Ok(a) => a.port(),
+			Err(_) => continue,
+		};
+		let mut config = P2PConfig::default();
+		config.host = "127.0.0.1".parse().unwrap();
+		config.port = port;
+		config.peer_max_inbound_count = Some(*max_in);
+		config.peer_listener_buffer_count = Some(*buffer);
+		let stop = Arc::new(grin_util::StopState::new());
+		let server = match Server::new(dir.to_str().unwrap(), Capabilities::default(), config, ad.clone(), g, stop.clone()) {
+			Ok(s) => Arc::new(s),
+			Err(_) => {
+				cx.fails += 1;
+				cx.out.raw("#ORACLE-FAIL C19 server: Server::new failed");
+				continue;
+			}
+		};
+		let s2 = server.clone();
+		let th = std::thread::spawn(move || {
+			global::set_local_chain_type(ChainTypes::AutomatedTesting);
+			let _ = s2.listen();
+		});
+		// logical wait: until the listener accepts connections
+		let deadline = Instant::now() + Duration::from_secs(30);
+		let mut socks: Vec<TcpStream> = vec![];
+		let mut res = String::new();
+		for i in 0..*n {
+			let mut c = loop {
+				match TcpStream::connect(("127.0.0.1", port)) {
+					Ok(c) => break Some(c),
+					Err(_) if Instant::now() < deadline => std::thread::sleep(Duration::from_millis(20)),
+					Err(_) => break None,
+				}
+			};
+			let c = match c.as_mut() {
+				Some(c) => c,
+				None => {
+					res.push('?');
+					continue;
+				}
+			};
+			let _ = c.set_nodelay(true);
+			let hand = Hand {
+				version: ProtocolVersion(1000),
+				capabilities: Capabilities::default(),
+				nonce: cx.rng.next(),
+				genesis: g,
+				total_difficulty: Difficulty::from_num(5),
+				sender_addr: PeerAddr(format!("127.0.0.1:{}", 5000 + i).parse().unwrap()),
+				receiver_addr: PeerAddr(format!("127.0.0.1:{}", port).parse().unwrap()),
+				user_agent: "verif/server".to_string(),
+			};
+			let _ = c.write_all(&wire(&Msg::new(Type::Hand, hand, ProtocolVersion(1)).unwrap()));
+			// a Shake, or the connection shut without a word
+			match read_one(c, 30_000) {
+				Some(f) if f[2] == Type::Shake as u8 => {
+					res.push('1');
+					// the peer counts as connected once it is in the map (logical wait)
+					let want = socks.len() + 1;
+					let dl = Instant::now() + Duration::from_secs(30);
+					while server.peers.iter().inbound().connected().count() < want && Instant::now() < dl {
+						std::thread::sleep(Duration::from_millis(5));
+					}
+					socks.push(c.try_clone().unwrap());
+				}
+				Some(_) => res.push('?'),
+				None => res.push('0'),
+			}
+		}
+		cx.stat(&format!("server: accept loop with peer_max_inbound_count {} + buffer {}, {} connections", max_in, buffer, n));
+		cx.out.line(&format!("codec server limit {} {} {}", max_in, buffer, n), &res);
+		server.stop();
+		let _ = th.join();
+		drop(socks);
 	}
 }
